@@ -15,7 +15,7 @@ PROP = dict(
          "(collector increment = model gcStep; VM step inside the mutator contract), and on every completed cycle the "
          "executable form of C07_cycle_complete is checked (heap at cycle end within reachable-at-start plus allocated-since); "
          "(B) eight loop programs with bounded live data run under the real pacing for N and 10N iterations with the peak heap "
-         "read after every step: the peak must not grow with N; plus three task programs (many short-lived tasks created one after the other: finishing normally, in pairs sending struct messages, ending with a runtime error) whose whole-process live bytes (counting allocator) must not grow with the number of tasks that have ended; (D) the pacing model M5p against the REAL pacing: the eight loop "
+         "read after every step: the peak at 10N must stay within 2x the peak at N plus 4096 B (64 objects); plus three task programs (many short-lived tasks created one after the other: finishing normally, in pairs sending struct messages, ending with a runtime error) whose whole-process live bytes (counting allocator) must not grow with the number of tasks that have ended; (D) the pacing model M5p against the REAL pacing: the eight loop "
          "programs, nested-pop programs (cycles of 5 and 6 calls), a static-string store program, a consumer thread that keeps "
          "receiving messages of many small objects (one ChannelRead allocates a whole message: 40 tuples with every step "
          "validated, 4000 tuples = 256 KB per instruction with the oracles only), generated and mover programs "
@@ -38,7 +38,7 @@ PROP = dict(
         "the budget consumed by static strings that the write barrier pushed on the gray stack is an input (`leak`) of a marking "
         "increment, deducted up front (exact unless such an entry exhausts the slice), and the theorems assume it leaves the slice "
         "above heap_size (always true when no such entry is on the stack)",
-        "the hypotheses of C07_bounded_heap are premises about the program (reachable bytes <= R and objects <= N at every call of "
+        "the hypotheses of C07_bounded_heap are premises about the program (reachable bytes <= R and objects <= N wherever a cycle STARTS, at a call of "
         "maybe_gc, at most A bytes allocated between two calls) and the mutator contract; on real runs they are measured, not proved",
         "the counting global allocator of the harness; Rust's Vec/Box/Arc ownership (a dropped owner frees its allocation)",
         "the Drop ledger model states the ownership structure (each thread owns its heap_list, the shared part owns the static strings); that the Rust Drop impls implement it is checked by the allocator oracle only",
@@ -59,7 +59,7 @@ PROP = dict(
                "oracle under the real pacing and a counting-allocator oracle for create/run/drop.",
     level_note="The pacing arithmetic and the heap bound are theorems about model M5p, validated against the real maybe_gc call by call; "
                "the Rust Drop implementations are covered by an oracle, not a theorem. Multi-threaded programs: each green thread has its "
-               "own collector and counters (the theorem is per thread); the pacing validation runs single-threaded programs.",
+               "own collector and counters (the theorem is per thread); the pacing validation observes the MAIN green thread only (two of its programs have a producer task whose own collector is not validated).",
     technique="Lean 4 ghost-set invariant proof over the mark/sweep state machine, potential-function proof of the pacing (debt covers heap, "
               "run invariant linking heap_size, last_gc_heap_size, phase and step count) + trace validation against the real pacing, peak-heap and counting-allocator oracles",
 )
